@@ -19,6 +19,7 @@ from hypothesis import strategies as st
 from .. import oracles as orc
 from .. import gens
 from ..core import guarded, HarnessError
+from ..core import quiet as core_quiet
 
 ID = "C18"
 TECHNIQUE = ("Hypothesis-generated (class, content, context at save, context at load, target) round trips over a "
@@ -65,7 +66,12 @@ def _obj(draw):
 
 @st.composite
 def _export(draw):
-    return {"kind": "export", "owner": draw(st.sampled_from(["DFunction", "Operator"])), "fmt": draw(st.sampled_from(FORMATS)),
+    return {"kind": "export", "owner": draw(st.sampled_from(["DFunction", "Operator", "Hamiltonian", "AbsSpectrum",
+                                                                "DensityMatrixEvolution"])),
+            "fmt": draw(st.sampled_from(FORMATS)),
+            # axis class of the accompanying axis; units / basis context around export and import (the same for both)
+            "axis_type": draw(st.sampled_from(["value", "time", "freq"])),
+            "units": draw(st.sampled_from([None, None, "1/cm", "eV"])), "in_basis": draw(st.booleans()),
             "complex": draw(st.booleans()), "two_d": draw(st.booleans()), "axis": draw(st.booleans()),
             "n": draw(st.integers(2, 12)), "m": draw(st.integers(2, 4)),
             "ints": draw(st.lists(st.integers(-9, 9), min_size=96, max_size=96))}
@@ -100,6 +106,22 @@ def grid(tier):
                     for axis in (False, True):
                         yield {"kind": "export", "owner": owner, "fmt": fmt, "complex": cplx, "two_d": two_d,
                                "axis": axis, "n": 7, "m": 3, "ints": ints}
+    base = {"kind": "export", "two_d": False, "axis": False, "n": 7, "m": 3, "ints": ints, "axis_type": "value"}
+    for fmt in FORMATS:
+        for units in (None, "1/cm", "eV"):
+            for cplx in (False, True):
+                yield dict(base, owner="AbsSpectrum", fmt=fmt, complex=cplx, units=units, in_basis=False)
+            if fmt != "mat":
+                for in_basis in (False, True):
+                    yield dict(base, owner="Hamiltonian", fmt=fmt, complex=False, units=units, in_basis=in_basis)
+                    yield dict(base, owner="Operator", fmt=fmt, complex=True, units=units, in_basis=in_basis)
+        if fmt != "mat":
+            for n in (6, 7, 8):          # 2, 3 and 4 states
+                yield dict(base, owner="DensityMatrixEvolution", fmt=fmt, complex=True, units=None, in_basis=False, n=n)
+        for atype in ("time", "freq"):
+            for cplx in (False, True):
+                yield dict(base, owner="DFunction", fmt=fmt, complex=cplx, axis=True, axis_type=atype, units=None,
+                           in_basis=False)
 
 
 def check_case(case, ctx):
@@ -499,24 +521,106 @@ def _check_export(case, ctx, tmp):
     ctx.label("export:" + owner, "fmt=" + fmt, "complex" if cplx else "real", "2d" if two_d else "1d",
               "axis" if axis else "noaxis")
     ctx.mark_nontrivial(cplx or axis)
-    if owner == "Operator":
+    import contextlib
+    units, in_basis = case.get("units"), bool(case.get("in_basis"))
+
+    @contextlib.contextmanager
+    def around(basis_op=None):
+        with contextlib.ExitStack() as stack:
+            if units:
+                stack.enter_context(qr.energy_units(units))
+            if basis_op is not None:
+                stack.enter_context(qr.eigenbasis_of(basis_op))
+            yield
+
+    if owner in ("Operator", "Hamiltonian"):
         if fmt == "mat" or axis:
             ctx.label("export:not-supported-by-MatrixData")
             return
         dim = 2 + n % 3
-        data = _mat(ints, dim) + (1j * _mat(ints, dim, 11) if cplx else 0)
-        o = Operator(data=data.copy())
+        if owner == "Hamiltonian":
+            data = _mat(ints, dim, sym=True) * 0.01
+            with qr.energy_units("int"):
+                o = qr.Hamiltonian(data=data.copy())
+                o2 = qr.Hamiltonian(data=numpy.zeros((dim, dim)))
+        else:
+            data = _mat(ints, dim) + (1j * _mat(ints, dim, 11) if cplx else 0)
+            o = Operator(data=data.copy())
+            o2 = Operator(dim=dim)
+        from quantarhei.qm import SelfAdjointOperator
+        bop = SelfAdjointOperator(data=_mat(ints, dim, 20, sym=True)) if in_basis else None
         path = os.path.join(tmp, "op." + fmt)
-        where = "Operator/%s/%s" % (fmt, "complex" if cplx else "real")
+        where = "%s/%s/%s%s%s" % (owner, fmt, "complex" if cplx and owner == "Operator" else "real",
+                                  "/units" if units else "", "/in-basis-context" if in_basis else "")
+        ctx.label("export-context:" + ("units+" if units else "") + ("basis" if in_basis else ("none" if not units else "")))
 
         def rt():
-            o.save_data(path)
-            o2 = Operator(dim=dim)
-            o2.load_data(path)
-            return numpy.array(o2.data)
+            # exported and imported under the same kind of context; the target object is new to that context
+            with around(bop):
+                o.save_data(path)
+            with around(bop):
+                o2.load_data(path)
+            with qr.energy_units("int"):
+                return numpy.array(o2.data), numpy.array(o.data)
         ok, got = guarded(ctx, "export", rt, where)
         if ok:
-            ctx.close("export-roundtrip", got, data, rtol=1e-15, where=where)
+            sc = max(1e-300, float(numpy.max(numpy.abs(data))))
+            ctx.close("export-roundtrip", got[0], data, rtol=1e-12 if (units or in_basis) else 1e-15, scale=sc, where=where)
+            ctx.close("export-leaves-original", got[1], data, rtol=1e-12, scale=sc, where=where)
+        return
+    if owner == "DensityMatrixEvolution":
+        if fmt == "mat" or axis:
+            ctx.label("export:not-supported-by-MatrixData")
+            return
+        from quantarhei.qm.propagators.dmevolution import ReducedDensityMatrixEvolution
+        dim, nt = 2 + n % 3, 3 + m
+        ta = qr.TimeAxis(0.0, nt, 1.0)
+        data = numpy.zeros((nt, dim, dim), dtype=complex)
+        for k in range(nt):
+            A = (_mat(ints, dim, k) + 1j * _mat(ints, dim, k + 5)) / 7.0
+            data[k] = A + A.conj().T
+        ev = ReducedDensityMatrixEvolution(ta, qr.ReducedDensityMatrix(dim=dim))
+        ev.data = data.copy()
+        path = os.path.join(tmp, "ev." + fmt)
+        where = "DensityMatrixEvolution/%s/dim%d" % (fmt, min(dim, 3))
+
+        def rt():
+            ev.save_data(path)
+            e2 = ReducedDensityMatrixEvolution(ta, qr.ReducedDensityMatrix(dim=dim))
+            e2.load_data(path)
+            return numpy.array(e2.data)
+        ok, got = guarded(ctx, "export", rt, where)
+        if ok:
+            ctx.close("export-roundtrip", got, data, rtol=1e-14, scale=float(numpy.max(numpy.abs(data))), where=where)
+        return
+    if owner == "AbsSpectrum":
+        # a spectrum on a FrequencyAxis; the receiving object is created with a place-holder axis (load_data of spectra
+        # needs some axis) and must come back with the axis stored in the file
+        from quantarhei.spectroscopy.absbase import AbsSpectrumBase
+        vals = numpy.array([ints[i % len(ints)] for i in range(n)], dtype=float) / 7.0
+        if cplx:
+            vals = vals + 1j * numpy.array([ints[(i + 7) % len(ints)] for i in range(n)], dtype=float) / 7.0
+        path = os.path.join(tmp, "abs." + fmt)
+        where = "AbsSpectrum/%s/%s%s" % (fmt, "complex" if cplx else "real", "/units" if units else "")
+
+        def rt():
+            with around():
+                start = {None: 2.0, "1/cm": 11000.0, "eV": 1.4}[units]
+                step = {None: 0.005, "1/cm": 25.0, "eV": 0.004}[units]
+                wax = qr.FrequencyAxis(start, n, step)
+                sp = AbsSpectrumBase(axis=wax, data=vals.copy())
+                sp.save_data(path)
+                sp2 = AbsSpectrumBase(axis=qr.FrequencyAxis(0.0, n, 1.0))
+                with core_quiet():
+                    sp2.load_data(path)
+            with qr.energy_units("int"):
+                return numpy.array(sp2.data), numpy.array(sp2.axis.data, dtype=float), numpy.array(wax.data, dtype=float)
+        ok, got = guarded(ctx, "export", rt, where)
+        if ok:
+            ctx.close("export-roundtrip", got[0], vals, rtol=1e-14, scale=max(1e-300, float(numpy.max(numpy.abs(vals)))),
+                      where=where)
+            ctx.close("export-roundtrip/axis", got[1], got[2], rtol=1e-12, scale=float(numpy.max(numpy.abs(got[2]))),
+                      where=where)
         return
     shape = (n, m) if two_d else (n,)
     size = n * m if two_d else n
@@ -524,25 +628,36 @@ def _check_export(case, ctx, tmp):
     if cplx:
         vals = vals + 1j * numpy.array([ints[(i + 7) % len(ints)] for i in range(size)], dtype=float)
     vals = vals.reshape(shape) / 7.0          # not exactly representable with a few decimal digits
-    ax = qr.ValueAxis(1.5, n, 0.25)
+    atype = case.get("axis_type", "value")
+    if atype == "time":
+        ax, mk2 = qr.TimeAxis(1.5, n, 0.25), (lambda: qr.TimeAxis(0.0, n, 1.0))
+    elif atype == "freq":
+        with qr.energy_units("int"):
+            ax = qr.FrequencyAxis(1.5, n, 0.25)
+        mk2 = lambda: qr.FrequencyAxis(0.0, n, 1.0)
+    else:
+        ax, mk2 = qr.ValueAxis(1.5, n, 0.25), (lambda: qr.ValueAxis(0.0, n, 1.0))
     f = qr.DFunction()
     f.axis = ax
     f.data = vals.copy()
     path = os.path.join(tmp, "f." + fmt)
     where = "DFunction/%s/%s/%s/%s" % (fmt, "complex" if cplx else "real", "2d" if two_d else "1d",
-                                       "axis" if axis else "noaxis")
+                                       (atype + "-axis") if axis else "noaxis")
 
     def rt():
         f.save_data(path, with_axis=ax if axis else None)
         g = qr.DFunction()
-        ax2 = qr.ValueAxis(0.0, n, 1.0)
+        ax2 = mk2()
         g.axis = ax2
         g.load_data(path, with_axis=ax2 if axis else None)
-        return numpy.array(g.data), numpy.array(ax2.data)
+        with qr.energy_units("int"):
+            return numpy.array(g.data), numpy.array(ax2.data)
     ok, r = guarded(ctx, "export", rt, where)
     if not ok:
         return
     got, gax = r
     ctx.close("export-roundtrip", got, vals, rtol=1e-15, where=where)
     if axis:
-        ctx.close("export-roundtrip/axis", numpy.real(gax), numpy.array(ax.data), rtol=1e-15, where=where)
+        with qr.energy_units("int"):
+            axd = numpy.array(ax.data)
+        ctx.close("export-roundtrip/axis", numpy.real(gax), axd, rtol=1e-15, where=where)
